@@ -412,3 +412,8 @@ from srccall import with_src  # noqa: E402
 PROP = with_src(C18(), share=12, functions=["_parse_keywords", "_parse_project_urls"], module="PkgProofs.Props.Src.Metadata",
                 theorems=["Src._parse_keywords_translated", "Src._parse_keywords_eq_model",
                           "Src._parse_project_urls_translated", "Src._parse_project_urls_eq_model"])
+# x7: `_get_payload` — the `email.message.Message` enters as data (`obj "Message" …`, PkgModel/PyX7.lean: the header list, `get_payload()`
+# and `get_payload(decode=True)` with / without a Content-Transfer-Encoding header, so that the `del msg[...]` of the source is
+# observable) — proved equal to Email.getPayload (the payload step that Email.parseEmail inlines)
+PROP = with_src(PROP, share=12, functions=["_get_payload"], module=["PkgProofs.Props.Src.X7Payload"],
+                theorems=["Src._get_payload_translated", "Src._get_payload_eq_model_str", "Src._get_payload_eq_model_bytes"])
